@@ -84,6 +84,13 @@ var overridesV = []ovr{
 	{map[trustpolicy.ValidationType]trustpolicy.ValidationAction{"expiry": "Enforce"}, false},
 	{map[trustpolicy.ValidationType]trustpolicy.ValidationAction{"revocation": ""}, false},
 	{map[trustpolicy.ValidationType]trustpolicy.ValidationAction{"revocation": "audit"}, false},
+	// one malformed entry among well-formed ones (the verdict must not depend on the order in which a map is walked)
+	{map[trustpolicy.ValidationType]trustpolicy.ValidationAction{"expiry": "log", "bogus": "log"}, false},
+	{map[trustpolicy.ValidationType]trustpolicy.ValidationAction{"authenticity": "log", "expiry": "Enforce"}, false},
+	{map[trustpolicy.ValidationType]trustpolicy.ValidationAction{"revocation": "log", "Expiry": "log"}, false},
+	{map[trustpolicy.ValidationType]trustpolicy.ValidationAction{"authenticTimestamp": "log", "revocation": "audit"}, false},
+	{map[trustpolicy.ValidationType]trustpolicy.ValidationAction{"authenticity": "enforce", "authenticTimestamp": "enforce", "expiry": "enforce", "revocation": "enforce", "": "enforce"}, false},
+	{map[trustpolicy.ValidationType]trustpolicy.ValidationAction{"authenticity": "log", "authenticTimestamp": "log", "expiry": "log", "revocation": "logg"}, false},
 }
 
 type stmt struct {
